@@ -197,6 +197,14 @@ pub enum Damage {
     ByteSet { pos: usize, val: u8 },
     Multi(Vec<(usize, u8)>),
     Truncate(usize),
+    /// a byte inserted before position `pos` (everything after shifts)
+    Insert { pos: usize, val: u8 },
+    /// the byte at `pos` lost
+    Delete { pos: usize },
+    /// `len` bytes starting at `pos` received twice
+    Duplicate { pos: usize, len: usize },
+    /// two bytes exchanged
+    Swap { a: usize, b: usize },
 }
 
 #[derive(Clone, Debug, Serialize, Deserialize)]
@@ -249,7 +257,9 @@ mod f {
     pub const BYTESET: usize = 6;
     pub const MULTI: usize = 7;
     pub const BITFLIP_SUFFIX: usize = 8;
-    pub const NAMES: [&str; 9] = [
+    pub const LENGTH_CHANGING: usize = 9;
+    pub const SWAP: usize = 10;
+    pub const NAMES: [&str; 11] = [
         "single_bit_flip_in_payload",
         "single_bit_flip_in_checksum",
         "burst_within_payload",
@@ -259,6 +269,8 @@ mod f {
         "byte_overwrite",
         "multi_byte_damage",
         "single_bit_flip_in_suffix",
+        "byte_inserted_deleted_or_duplicated",
+        "two_bytes_swapped",
     ];
 }
 
@@ -320,6 +332,29 @@ fn apply(x: &[u8], d: &Damage, refin: bool) -> Vec<u8> {
             }
         }
         Damage::Truncate(l) => y.truncate(*l),
+        Damage::Insert { pos, val } => {
+            let p = (*pos).min(y.len());
+            y.insert(p, *val);
+        }
+        Damage::Delete { pos } => {
+            if *pos < y.len() {
+                y.remove(*pos);
+            }
+        }
+        Damage::Duplicate { pos, len } => {
+            if *pos < y.len() {
+                let end = (pos + len).min(y.len());
+                let dup: Vec<u8> = y[*pos..end].to_vec();
+                let tail = y.split_off(end);
+                y.extend_from_slice(&dup);
+                y.extend_from_slice(&tail);
+            }
+        }
+        Damage::Swap { a, b } => {
+            if *a < y.len() && *b < y.len() {
+                y.swap(*a, *b);
+            }
+        }
     }
     y
 }
@@ -356,6 +391,10 @@ fn check_damaged(c: &Ctx, d: &Damage, out: &mut Outcome<C10Trace>) -> bool {
         Damage::ByteSet { .. } => (3, 3),
         Damage::Multi(_) => (4, 4),
         Damage::Truncate(_) => (5, 5),
+        Damage::Insert { .. } => (6, 6),
+        Damage::Delete { .. } => (7, 7),
+        Damage::Duplicate { .. } => (8, 8),
+        Damage::Swap { .. } => (9, 9),
     };
     out.ev(code, x.len() as u64, matches!(r, Ok(Ok(_))) as u64, || {
         format!(
@@ -535,6 +574,14 @@ fn check_damaged(c: &Ctx, d: &Damage, out: &mut Outcome<C10Trace>) -> bool {
         }
         Damage::Truncate(_) => {
             out.fault(f::TRUNCATE);
+            3
+        }
+        Damage::Insert { .. } | Damage::Delete { .. } | Damage::Duplicate { .. } => {
+            out.fault(f::LENGTH_CHANGING);
+            3
+        }
+        Damage::Swap { .. } => {
+            out.fault(f::SWAP);
             3
         }
     };
@@ -783,11 +830,16 @@ fn exec_c10(t: &C10Trace, out: &mut Outcome<C10Trace>) {
                     if n == 0 {
                         break;
                     }
-                    let d = if rng.chance(1, 2) {
-                        Damage::ByteSet { pos: rng.usize_below(n), val: rng.next() as u8 }
-                    } else {
-                        let k = rng.range(2, 6);
-                        Damage::Multi((0..k).map(|_| (rng.usize_below(n), rng.next() as u8)).collect())
+                    let d = match rng.below(7) {
+                        0 | 1 => Damage::ByteSet { pos: rng.usize_below(n), val: rng.next() as u8 },
+                        2 => Damage::Insert { pos: rng.usize_below(n + 1), val: rng.next() as u8 },
+                        3 => Damage::Delete { pos: rng.usize_below(n) },
+                        4 => Damage::Duplicate { pos: rng.usize_below(n), len: rng.range(1, 4) },
+                        5 => Damage::Swap { a: rng.usize_below(n), b: rng.usize_below(n) },
+                        _ => {
+                            let k = rng.range(2, 6);
+                            Damage::Multi((0..k).map(|_| (rng.usize_below(n), rng.next() as u8)).collect())
+                        }
                     };
                     if apply(&c.x0, &d, alg.refin) == c.x0 {
                         continue;
@@ -888,7 +940,7 @@ impl Scenario for C10 {
         v
     }
     fn rule() -> &'static str {
-        "one case = one frame (value x checksum width 8/16/32/64/128 x catalogue algorithm, produced by the real CRC serialiser into slice, heapless and growable storage) with the wire damage enumerated completely per frame: every single-bit flip of frame and suffix, every truncation length, 16 (thorough: 64) seeded burst patterns of length 2..=algorithm width at every bit offset in the algorithm's bit order, plus 32 seeded byte overwrites / multi-byte damages. evaluations = real CRC (de)serialiser calls checked. distinct_nontrivial counts distinct (width, algorithm, damage kind, region hit {payload, checksum, suffix, straddling}, accepted/rejected, set of kinds in the shape) over damages that changed at least one bit of payload or checksum."
+        "one case = one frame (value x checksum width 8/16/32/64/128 x catalogue algorithm, produced by the real CRC serialiser into slice, heapless and growable storage) with the wire damage enumerated completely per frame: every single-bit flip of frame and suffix, every truncation length, 16 (thorough: 64) seeded burst patterns of length 2..=algorithm width at every bit offset in the algorithm's bit order, plus 32 seeded byte overwrites, multi-byte damages, insertions, deletions, duplications and swaps. evaluations = real CRC (de)serialiser calls checked. distinct_nontrivial counts distinct (width, algorithm, damage kind, region hit {payload, checksum, suffix, straddling}, accepted/rejected, set of kinds in the shape) over damages that changed at least one bit of payload or checksum."
     }
     fn real_components() -> &'static [&'static str] {
         &[
